@@ -3,6 +3,9 @@ generated code are invariant under any injective relabelling of the `id()`
 values found in the attr paths. -/
 import XsdataModel.Codegen.SeqNum
 
+set_option linter.unusedSimpArgs false
+set_option linter.unusedVariables false
+
 namespace Xs.Codegen
 open Py List
 
